@@ -158,6 +158,9 @@ pub fn run(_args: &[String]) -> i32 {
         vec![b(5, "A", "10", "X", Some("3")), b(6, "B", "1", "Z", None), b(7, "A", "2", "Z", None)],
         // sub-precision products: rounded once, at the end, to T's precision only
         vec![b(5, "A", "3", "X", Some("3.3333")), b(6, "A", "7", "X", Some("3.3333")), b(7, "B", "0.5", "Y", Some("0.125")), b(8, "B", "0.25", "Y", Some("0.125"))],
+        // every account holds some T next to another commodity: holding T already never excuses the rest of an account from conversion (seed C10-m)
+        vec![b(5, "A", "10", "X", Some("3")), b(6, "A", "7", "T", None), b(7, "B", "4", "Y", Some("2.5")), b(8, "B", "5", "T", None)],
+        vec![b(5, "A", "10", "X", Some("3")), b(6, "A", "7", "T", None), b(7, "A", "2", "Z", None), b(8, "B", "5", "T", None)],
         // a holding that cancels to zero in a priced commodity, and two prices on the same day (the later written one wins)
         vec![b(5, "A", "10", "X", Some("3")), b(6, "A", "-10", "X", Some("3")), b(9, "B", "1", "Y", Some("2")), b(9, "B", "1", "Y", Some("6"))],
     ];
